@@ -86,6 +86,8 @@ fn main() {
                 "get_many" => dbops.push(api::DbOp::GetMany(unhex(t[2]), t[3].parse().unwrap())),
                 "sleep" => dbops.push(api::DbOp::Sleep(t[2].parse().unwrap())),
                 "dircheck" => dbops.push(api::DbOp::DirCheck),
+                // manifest_fragment_type <k>: the type code of the k-th fragment from the end of the manifest, Full -> First
+                "manifest_fragment_type" => dbops.push(api::DbOp::ManifestFragmentType(t[2].parse().unwrap())),
                 "damage_table" => dbops.push(api::DbOp::DamageTable(t[2].parse().unwrap(), t[3].parse().unwrap(), t[4].parse().unwrap())),
                 _ => panic!("bad db op"),
             },
@@ -146,6 +148,44 @@ fn main() {
         // show the visible pairs or fail.  The kind of disagreement is reported: `scan-ends-early-
         // without-error` (entries are missing from a scan whose every shown pair is right, and no
         // error was visible) is finding F13; everything else is `wrong-result`.
+        // C15: the type code of one manifest fragment is altered while the database is closed.  `open`
+        // must refuse the manifest, or everything read afterwards must be right.  The history is run
+        // twice: as it is (control; the altering step is a plain reopen) and with the alteration.
+        // A disagreement of the control run is `wrong-result`; a disagreement that only the altered
+        // run shows is `altered-fragment-type-goes-unnoticed` (finding F15).
+        "manifest_type" => {
+            let mut model: std::collections::BTreeMap<Vec<u8>, Option<Vec<u8>>> = Default::default();
+            for op in &dbops {
+                match op {
+                    api::DbOp::Put(k, v) => { model.insert(k.clone(), Some(v.clone())); }
+                    api::DbOp::Delete(k) => { model.insert(k.clone(), None); }
+                    _ => {}
+                }
+            }
+            let keys: Vec<Vec<u8>> = model.keys().cloned().collect();
+            let control: Vec<api::DbOp> = dbops.iter().map(|o| match o { api::DbOp::ManifestFragmentType(_) => api::DbOp::ManifestFragmentType(usize::MAX), _ => o.clone() }).collect();
+            let judge = |o: &api::DamageOutcome| -> Vec<String> {
+                let mut wrong = vec![];
+                if o.open_error.is_some() { return wrong; }
+                for (k, a) in keys.iter().zip(o.gets.iter()) {
+                    if a.starts_with("error:") { continue; }
+                    let e = match model.get(k) { Some(Some(val)) => format!("value:{}", hx(val)), _ => "notfound".to_string() };
+                    if *a != e { wrong.push(format!("get({}) returned {} expected {}", hex(k), a, e)); }
+                }
+                let vis: Vec<(Vec<u8>, Vec<u8>)> = model.iter().filter_map(|(k, v)| v.as_ref().map(|v| (k.clone(), v.clone()))).collect();
+                if o.forward_error.is_none() && o.forward != vis { wrong.push(format!("forward scan shows {} pairs, expected {}", o.forward.len(), vis.len())); }
+                wrong
+            };
+            let c = api::run_damage(&control, &keys);
+            if c.open_error.is_some() { println!("REPLAY violated oracle=manifest_type kind=wrong-result the unaltered database does not reopen: {}", c.open_error.unwrap().replace('\n', " ")); return; }
+            let cw = judge(&c);
+            if !cw.is_empty() { println!("REPLAY violated oracle=manifest_type kind=wrong-result (unaltered manifest) {}", cw.join("; ")); return; }
+            let o = api::run_damage(&dbops, &keys);
+            if let Some(e) = &o.open_error { println!("REPLAY holds oracle=manifest_type open refused the altered manifest: {}", e.replace('\n', " ")); return; }
+            let w = judge(&o);
+            if !w.is_empty() { println!("REPLAY violated oracle=manifest_type kind=altered-fragment-type-goes-unnoticed open accepted the manifest; {}", w.join("; ")); }
+            else { println!("REPLAY holds oracle=manifest_type gets={}", o.gets.len()); }
+        }
         "scan_damage" => {
             let mut model: std::collections::BTreeMap<Vec<u8>, Option<Vec<u8>>> = Default::default();
             for op in &dbops {
